@@ -1041,6 +1041,13 @@ func handlerFor(t *rapid.T, z *ZooSpec, event string) OVal {
 		}
 		return true
 	}
+	if (event == "__len" || event == "__concat") && rapid.IntRange(0, 4).Draw(t, "uncarriable") == 0 {
+		// a result the Go signature cannot carry (a string, nil, a boolean or a table as length; a non-string as
+		// concatenation): nothing to compare then, but the call must still leave the caller's list alone
+		h := HandlerSpec{Impl: rapid.SampledFrom([]string{"lua", "go"}).Draw(t, "impl3"), Act: "const", Ret: genPrim(t)}
+		z.Handlers = append(z.Handlers, h)
+		return OVal{K: "h", I: len(z.Handlers) - 1}
+	}
 	var ok []int
 	for i, h := range z.Handlers {
 		if suitable(h) {
